@@ -113,3 +113,714 @@ Proof.
     cbn [map concat]. rewrite concat_app, IH, aio_stanza_writes_concat. reflexivity. }
   rewrite Hs, <- !app_assoc. reflexivity.
 Qed.
+
+(** * Stream writers over two related downstreams
+
+    If every successful call of the first downstream is matched by a
+    successful call of the second one (relation [R] preserved), then a run of
+    the stream writer in which every operation reported success is the same run
+    over the second downstream. *)
+
+Lemma aio_Forall_repeat_true : forall n, Forall (fun b : bool => b = true) (repeat true n).
+Proof. induction n as [|n IH]; cbn [repeat]; constructor; [reflexivity|exact IH]. Qed.
+
+Section WriterSim.
+  Variable cs : nat.
+  Variable seal : bytes -> bytes -> bytes.
+  Variables D1 D2 : Type.
+  Variable dw1 : D1 -> bytes -> D1 * bool.
+  Variable dw2 : D2 -> bytes -> D2 * bool.
+  Variable R : D1 -> D2 -> Prop.
+  Hypothesis step : forall d1 d2 p d1', R d1 d2 -> dw1 d1 p = (d1', true) ->
+    exists d2', dw2 d2 p = (d2', true) /\ R d1' d2'.
+
+  Lemma aio_sim_flush : forall last w d1 d2 w' d1', R d1 d2 ->
+    w_flush cs seal D1 dw1 last w d1 = Ok (w', d1', true) ->
+    exists d2', w_flush cs seal D2 dw2 last w d2 = Ok (w', d2', true) /\ R d1' d2'.
+  Proof using step.
+    intros last w d1 d2 w' d1' HR H. unfold w_flush in *.
+    destruct (negb last && negb (Nat.eqb (length (w_buf w)) cs)); [discriminate H|].
+    destruct (dw1 d1 (seal (nonce_of (w_ctr w) last) (w_buf w))) as [d1a ok] eqn:E.
+    destruct (N.eqb (w_ctr w + 1) ctr_limit); [discriminate H|].
+    injection H as <- <- ->.
+    destruct (step _ d2 _ _ HR E) as (d2' & E2 & HR'). rewrite E2.
+    exists d2'. split; [reflexivity|exact HR'].
+  Qed.
+
+  Lemma aio_sim_loop : forall fuel w d1 d2 p w' d1', R d1 d2 ->
+    w_loop cs seal D1 dw1 fuel w d1 p = Ok (w', d1', true) ->
+    exists d2', w_loop cs seal D2 dw2 fuel w d2 p = Ok (w', d2', true) /\ R d1' d2'.
+  Proof using step.
+    induction fuel as [|f IH]; intros w d1 d2 p w' d1' HR H.
+    - destruct p as [|x p0]; cbn [w_loop] in *; [|discriminate H].
+      injection H as <- <-. exists d2. split; [reflexivity|exact HR].
+    - destruct p as [|x p0]; cbn [w_loop] in *.
+      { injection H as <- <-. exists d2. split; [reflexivity|exact HR]. }
+      destruct (skipn (cs - length (w_buf w)) (x :: p0)) as [|y r].
+      + injection H as <- <-. exists d2. split; [reflexivity|exact HR].
+      + cbn [w_buf] in *.
+        destruct (Nat.eqb (length (w_buf w ++ firstn (cs - length (w_buf w)) (x :: p0))) cs).
+        * destruct (w_flush cs seal D1 dw1 false
+                      (mkW (w_buf w ++ firstn (cs - length (w_buf w)) (x :: p0)) (w_ctr w) (w_st w)) d1)
+            as [[[w2 d1a] ok]|c|n] eqn:Ef; cbn [bind] in H; try discriminate H.
+          destruct ok; [|discriminate H].
+          destruct (aio_sim_flush _ _ _ d2 _ _ HR Ef) as (d2a & Ef2 & HRa).
+          rewrite Ef2. cbn [bind]. exact (IH _ _ _ _ _ _ HRa H).
+        * exact (IH _ _ _ _ _ _ HR H).
+  Qed.
+
+  Lemma aio_sim_write : forall w d1 d2 p w' d1' n, R d1 d2 ->
+    w_write cs seal D1 dw1 w d1 p = Ok (w', d1', Some n) ->
+    exists d2', w_write cs seal D2 dw2 w d2 p = Ok (w', d2', Some n) /\ R d1' d2'.
+  Proof using step.
+    intros w d1 d2 p w' d1' n HR H. unfold w_write in *.
+    destruct (w_st w); try discriminate H.
+    destruct p as [|x p0].
+    { injection H as <- <- <-. exists d2. split; [reflexivity|exact HR]. }
+    destruct (w_loop cs seal D1 dw1 (S (length (x :: p0))) w d1 (x :: p0))
+      as [[[w1 d1a] ok]|c|k] eqn:El; cbn [bind] in H; try discriminate H.
+    destruct ok; [|discriminate H]. injection H as <- <- <-.
+    destruct (aio_sim_loop _ _ _ d2 _ _ _ HR El) as (d2a & El2 & HRa).
+    rewrite El2. cbn [bind]. exists d2a. split; [reflexivity|exact HRa].
+  Qed.
+
+  Lemma aio_sim_close : forall w d1 d2 w' d1', R d1 d2 ->
+    w_close cs seal D1 dw1 w d1 = Ok (w', d1', true) ->
+    exists d2', w_close cs seal D2 dw2 w d2 = Ok (w', d2', true) /\ R d1' d2'.
+  Proof using step.
+    intros w d1 d2 w' d1' HR H. unfold w_close in *.
+    destruct (w_st w); try discriminate H.
+    destruct (w_flush cs seal D1 dw1 true w d1) as [[[w1 d1a] ok]|c|k] eqn:Ef;
+      cbn [bind] in H; try discriminate H.
+    destruct ok; [|discriminate H]. injection H as <- <-.
+    destruct (aio_sim_flush _ _ _ d2 _ _ HR Ef) as (d2a & Ef2 & HRa).
+    rewrite Ef2. cbn [bind]. exists d2a. split; [reflexivity|exact HRa].
+  Qed.
+
+  Lemma aio_run_acc : forall ws w d1 acc w' d1' oks,
+    w_run cs seal D1 dw1 w d1 ws acc = Ok (w', d1', oks) -> exists l, oks = acc ++ l.
+  Proof using Type.
+    induction ws as [|p rest IH]; intros w d1 acc w' d1' oks H; cbn [w_run] in H.
+    - destruct (w_close cs seal D1 dw1 w d1) as [[[w1 d1a] ok]|c|k]; cbn [bind] in H;
+        try discriminate H.
+      injection H as _ _ <-. eexists; reflexivity.
+    - destruct (w_write cs seal D1 dw1 w d1 p) as [[[w1 d1a] r]|c|k]; cbn [bind] in H;
+        try discriminate H.
+      destruct (IH _ _ _ _ _ _ H) as (l & ->). rewrite <- app_assoc. eexists; reflexivity.
+  Qed.
+
+  Lemma aio_sim_run : forall ws w d1 d2 acc w' d1' oks, R d1 d2 ->
+    w_run cs seal D1 dw1 w d1 ws acc = Ok (w', d1', oks) ->
+    Forall (fun b => b = true) oks ->
+    exists d2', w_run cs seal D2 dw2 w d2 ws acc = Ok (w', d2', oks) /\ R d1' d2'.
+  Proof using step.
+    induction ws as [|p rest IH]; intros w d1 d2 acc w' d1' oks HR H Hall; cbn [w_run] in *.
+    - destruct (w_close cs seal D1 dw1 w d1) as [[[w1 d1a] ok]|c|k] eqn:Ec; cbn [bind] in H;
+        try discriminate H.
+      injection H as <- <- <-.
+      apply Forall_app in Hall. destruct Hall as [_ Hl].
+      inversion Hl as [|b l Hb _]; subst.
+      destruct (aio_sim_close _ _ d2 _ _ HR Ec) as (d2a & Ec2 & HRa).
+      rewrite Ec2. cbn [bind]. exists d2a. split; [reflexivity|exact HRa].
+    - destruct (w_write cs seal D1 dw1 w d1 p) as [[[w1 d1a] r]|c|k] eqn:Ew; cbn [bind] in H;
+        try discriminate H.
+      destruct (aio_run_acc _ _ _ _ _ _ _ H) as (l & Hl).
+      assert (Hr : exists n, r = Some n).
+      { rewrite Hl in Hall. apply Forall_app in Hall. destruct Hall as [Ha _].
+        apply Forall_app in Ha. destruct Ha as [_ Ha].
+        inversion Ha as [|b l' Hb _]; subst.
+        destruct r as [n|]; [exists n; reflexivity|discriminate Hb]. }
+      destruct Hr as (n & ->).
+      destruct (aio_sim_write _ _ d2 _ _ _ _ HR Ew) as (d2a & Ew2 & HRa).
+      rewrite Ew2. cbn [bind]. exact (IH _ _ _ _ _ _ _ HRa H Hall).
+  Qed.
+
+  Lemma aio_sim_dwrites : forall ps d1 d2 d1', R d1 d2 ->
+    dwrites D1 dw1 d1 ps = (d1', true) ->
+    exists d2', dwrites D2 dw2 d2 ps = (d2', true) /\ R d1' d2'.
+  Proof using step.
+    induction ps as [|p ps IH]; intros d1 d2 d1' HR H; cbn [dwrites] in *.
+    - injection H as <-. exists d2. split; [reflexivity|exact HR].
+    - destruct (dw1 d1 p) as [d1a ok] eqn:E. destruct ok; [|discriminate H].
+      destruct (step _ d2 _ _ HR E) as (d2a & E2 & HRa). rewrite E2.
+      exact (IH _ _ _ HRa H).
+  Qed.
+End WriterSim.
+
+Local Opaque armor_header armor_footer.
+
+(** * The armor writer as a downstream of the stream writer *)
+
+(** all-accepting plain destination vs armor writer over the all-accepting
+    destination: the armor writer has been handed exactly [T] *)
+Definition aio_ainv (T : bytes) (ad : awstate * bytes) : Prop :=
+  (fst ad = aw_init /\ snd ad = [] /\ T = []) \/ af_inv (fst ad) (snd ad) T.
+
+Lemma aio_ainv_step : forall (T : bytes) (ad : awstate * bytes) (p T' : bytes),
+  aio_ainv T ad -> (T ++ p, true) = (T', true) ->
+  exists ad', armored_dwrite bytes af_W ad p = (ad', true) /\ aio_ainv T' ad'.
+Proof.
+  intros T [a d] p T' Hinv HT. injection HT as <-.
+  assert (Hstart : exists a' d', aw_write bytes af_W a d p = (a', d', true) /\ af_inv a' d' (T ++ p)).
+  { destruct Hinv as [(Ha & Hd & ->)|Hinv]; cbn [fst snd] in *.
+    - subst a d.
+      destruct (af_write_inv (mkAW true false [] false 0) (armor_header ++ [LF]) [] p af_inv_a0)
+        as (a' & d' & Hw & Hi).
+      exists a', d'. split; [|exact Hi]. rewrite <- Hw. reflexivity.
+    - exact (af_write_inv a d T p Hinv). }
+  destruct Hstart as (a' & d' & Hw & Hi).
+  exists (a', d'). unfold armored_dwrite. cbn [fst snd]. rewrite Hw.
+  split; [reflexivity|]. right. exact Hi.
+Qed.
+
+Lemma aio_ainv_close : forall T a d, aio_ainv T (a, d) ->
+  exists a', aw_close bytes af_W a d = (a', armor_bytes T, true).
+Proof.
+  intros T a d [(Ha & Hd & ->)|Hinv]; cbn [fst snd] in *.
+  - subst a d. pose proof (af_run_init [] []) as Hr. cbn [aw_run] in Hr.
+    destruct (af_close_inv (mkAW true false [] false 0) (armor_header ++ [LF]) [] af_inv_a0)
+      as (a' & Hc).
+    rewrite Hc in Hr. destruct (aw_close bytes af_W aw_init []) as [[a1 d1] ok1].
+    injection Hr as -> -> ->. exists a'. reflexivity.
+  - exact (af_close_inv a d T Hinv).
+Qed.
+
+(** armor writer over a sink vs armor writer over the all-accepting
+    destination: no call failed so far, same bytes *)
+Definition aio_sinv (d1 : awstate * sink) (d2 : awstate * bytes) : Prop :=
+  fst d2 = fst d1 /\ snd d2 = k_acc (snd d1) /\ k_fails (snd d1) = 0.
+
+Lemma aio_sinv_step : forall (d1 : awstate * sink) (d2 : awstate * bytes) (p : bytes)
+                             (d1' : awstate * sink),
+  aio_sinv d1 d2 -> armored_dwrite sink sink_write d1 p = (d1', true) ->
+  exists d2', armored_dwrite bytes af_W d2 p = (d2', true) /\ aio_sinv d1' d2'.
+Proof.
+  intros [a k] [a2 b] p d1' (Ha & Hb & Hf) H. cbn [fst snd] in *. subst a2 b.
+  unfold armored_dwrite in *. cbn [fst snd] in *.
+  destruct (aw_write sink sink_write a k p) as [[a' k'] ok] eqn:E.
+  injection H as <- ->.
+  destruct (af_sim_write _ _ _ _ _ E) as [E2 F]. rewrite E2.
+  exists (a', k_acc k'). split; [reflexivity|].
+  unfold aio_sinv. cbn [fst snd]. repeat split. congruence.
+Qed.
+
+(** plain sink vs all-accepting destination *)
+Definition aio_kinv (k : sink) (b : bytes) : Prop := b = k_acc k /\ k_fails k = 0.
+
+Lemma aio_kinv_step : forall (k : sink) (b p : bytes) (k' : sink),
+  aio_kinv k b -> sink_write k p = (k', true) ->
+  exists b', (b ++ p, true) = (b', true) /\ aio_kinv k' b'.
+Proof.
+  intros k b p k' [-> Hf] H. apply af_sink_write_true in H. destruct H as [Ha Hf'].
+  exists (k_acc k ++ p). split; [reflexivity|]. split; [symmetry; exact Ha|congruence].
+Qed.
+
+(** * Sessions *)
+
+Notation aio_ad0 := (@pair awstate bytes aw_init (@nil byte)).
+
+Section WithPrims.
+  Variable P : Prims.
+
+  Lemma aio_wrap_no_panic : forall r fk tape n, wrap P r fk tape <> Panic n.
+  Proof.
+    intros r fk tape n. destruct r; cbn [wrap]; unfold wrap_x25519_like;
+      repeat match goal with |- context [match ?x with _ => _ end] => destruct x end;
+      discriminate.
+  Qed.
+
+  Lemma aio_wrap_all_no_panic : forall rs fk tape labels acc n,
+    wrap_all P rs fk tape labels acc <> Panic n.
+  Proof.
+    induction rs as [|r rs IH]; intros fk tape labels acc n; cbn [wrap_all]; [discriminate|].
+    destruct (wrap P r fk tape) as [[[st l] tape']|c|k] eqn:E.
+    - destruct labels as [l0|]; [|apply IH].
+      destruct (labels_eqb l0 (sort_labels l)); [apply IH|discriminate].
+    - destruct c; discriminate.
+    - exfalso. exact (aio_wrap_no_panic _ _ _ _ E).
+  Qed.
+
+  (** what a successful Encrypt did *)
+  Lemma aio_open_plan : forall (D : Type) (dw : D -> bytes -> D * bool) rs tape d pl d' x,
+    encrypt_open P D dw rs tape d = (Ok (pl, d'), x) ->
+    plan_encrypt P rs tape = Ok pl /\ x = d' /\
+    exists d1, dwrites D dw d (header_writes (ep_header pl)) = (d1, true) /\
+               dw d1 (ep_nonce pl) = (d', true).
+  Proof.
+    intros D dw rs tape d pl d' x H. unfold encrypt_open in H. unfold plan_encrypt.
+    destruct rs as [|r rs']; [discriminate H|].
+    destruct (take file_key_size tape) as [[fk tape1]|]; [|discriminate H].
+    destruct (wrap_all P (r :: rs') fk tape1 None []) as [[stanzas tape2]|c|n];
+      try discriminate H.
+    cbn [bind].
+    destruct (dwrites D dw d (header_writes (mkHeader stanzas (header_mac P fk stanzas))))
+      as [d1 ok1] eqn:E1.
+    destruct ok1; cbn [negb] in H; [|discriminate H].
+    destruct (take stream_nonce_size tape2) as [[nonce tape3]|]; [|discriminate H].
+    destruct (dw d1 nonce) as [d2 ok2] eqn:E2.
+    destruct ok2; cbn [negb] in H; [|discriminate H].
+    injection H as <- <- <-. cbn [ep_header ep_nonce].
+    split; [reflexivity|]. split; [reflexivity|]. exists d1. split; assumption.
+  Qed.
+
+  Lemma aio_plan_open : forall (D : Type) (dw : D -> bytes -> D * bool) rs tape d pl d1 d',
+    plan_encrypt P rs tape = Ok pl ->
+    dwrites D dw d (header_writes (ep_header pl)) = (d1, true) ->
+    dw d1 (ep_nonce pl) = (d', true) ->
+    encrypt_open P D dw rs tape d = (Ok (pl, d'), d').
+  Proof.
+    intros D dw rs tape d pl d1 d' Hp Hd Hn. unfold plan_encrypt in Hp. unfold encrypt_open.
+    destruct rs as [|r rs']; [discriminate Hp|].
+    destruct (take file_key_size tape) as [[fk tape1]|]; [|discriminate Hp].
+    destruct (wrap_all P (r :: rs') fk tape1 None []) as [[stanzas tape2]|c|n];
+      cbn [bind] in Hp; try discriminate Hp.
+    destruct (take stream_nonce_size tape2) as [[nonce tape3]|]; [|discriminate Hp].
+    injection Hp as <-. cbn [ep_header ep_nonce] in *.
+    rewrite Hd. cbn [negb]. rewrite Hn. reflexivity.
+  Qed.
+
+  Lemma aio_open_no_panic : forall (D : Type) (dw : D -> bytes -> D * bool) rs tape d n x,
+    encrypt_open P D dw rs tape d <> (Panic n, x).
+  Proof.
+    intros D dw rs tape d n x H. unfold encrypt_open in H.
+    destruct rs as [|r rs']; [discriminate H|].
+    destruct (take file_key_size tape) as [[fk tape1]|]; [|discriminate H].
+    destruct (wrap_all P (r :: rs') fk tape1 None []) as [[stanzas tape2]|c|k] eqn:Ew;
+      try discriminate H.
+    - destruct (dwrites D dw d (header_writes (mkHeader stanzas (header_mac P fk stanzas))))
+        as [d1 ok1].
+      destruct ok1; cbn [negb] in H; [|discriminate H].
+      destruct (take stream_nonce_size tape2) as [[nonce tape3]|]; [|discriminate H].
+      destruct (dw d1 nonce) as [d2 ok2]. destruct ok2; discriminate H.
+    - exact (aio_wrap_all_no_panic _ _ _ _ _ _ Ew).
+  Qed.
+
+  Lemma aio_session_ok_plan : forall (D : Type) (dw : D -> bytes -> D * bool) cs rs tape d ws d' oks,
+    encrypt_session P D dw cs rs tape d ws = Ok (d', true, oks) ->
+    exists pl, plan_encrypt P rs tape = Ok pl.
+  Proof.
+    intros D dw cs rs tape d ws d' oks H. unfold encrypt_session in H.
+    destruct (encrypt_open P D dw rs tape d) as [[[pl d1]|c|n] x] eqn:E; try discriminate H.
+    exists pl. exact (proj1 (aio_open_plan _ _ _ _ _ _ _ _ E)).
+  Qed.
+
+  Section SessionSim.
+    Variables D1 D2 : Type.
+    Variable dw1 : D1 -> bytes -> D1 * bool.
+    Variable dw2 : D2 -> bytes -> D2 * bool.
+    Variable R : D1 -> D2 -> Prop.
+    Hypothesis step : forall d1 d2 p d1', R d1 d2 -> dw1 d1 p = (d1', true) ->
+      exists d2', dw2 d2 p = (d2', true) /\ R d1' d2'.
+
+    Lemma aio_sim_session : forall cs rs tape d1 d2 ws d1' oks, R d1 d2 ->
+      encrypt_session P D1 dw1 cs rs tape d1 ws = Ok (d1', true, oks) ->
+      Forall (fun b => b = true) oks ->
+      exists d2', encrypt_session P D2 dw2 cs rs tape d2 ws = Ok (d2', true, oks) /\ R d1' d2'.
+    Proof using step.
+      intros cs rs tape d1 d2 ws d1' oks HR H Hall. unfold encrypt_session in *.
+      destruct (encrypt_open P D1 dw1 rs tape d1) as [[[pl d1a]|c|n] x] eqn:E1;
+        try discriminate H.
+      destruct (aio_open_plan _ _ _ _ _ _ _ _ E1) as (Hp & _ & d1h & Hh & Hn).
+      destruct (aio_sim_dwrites D1 D2 dw1 dw2 R step _ _ d2 _ HR Hh) as (d2h & Hh2 & HRh).
+      destruct (step _ _ _ _ HRh Hn) as (d2a & Hn2 & HRa).
+      rewrite (aio_plan_open _ _ _ _ _ _ _ _ Hp Hh2 Hn2).
+      destruct (w_run cs (aead_seal P (stream_key P (ep_file_key pl) (ep_nonce pl))) D1 dw1
+                      w_init d1a ws []) as [[[w d1b] oks']|c|n] eqn:Er;
+        cbn [bind] in H; try discriminate H.
+      injection H as <- <-.
+      destruct (aio_sim_run _ _ D1 D2 dw1 dw2 R step _ _ _ d2a _ _ _ _ HRa Er Hall)
+        as (d2b & Er2 & HRb).
+      rewrite Er2. cbn [bind]. exists d2b. split; [reflexivity|exact HRb].
+    Qed.
+  End SessionSim.
+
+  Lemma aio_dwrites_W : forall (ps : list bytes) (d : bytes),
+    dwrites bytes af_W d ps = (d ++ concat ps, true).
+  Proof.
+    induction ps as [|p ps IH]; intros d; cbn [dwrites concat].
+    - rewrite app_nil_r. reflexivity.
+    - rewrite IH, <- app_assoc. reflexivity.
+  Qed.
+
+  (** ** C05: a session into the all-accepting destination *)
+  Lemma session_bytes :
+    forall (cs : nat) (rs : list recipient) (tape : bytes) (pl : enc_plan) (ws : list bytes),
+      (0 < cs)%nat ->
+      plan_encrypt P rs tape = Ok pl ->
+      (N.of_nat (length (concat ws)) < ctr_limit)%N ->
+      encrypt_session P bytes (fun d p => (d ++ p, true)) cs rs tape [] ws
+      = Ok (file_bytes P cs pl (concat ws), true, repeat true (S (length ws))).
+  Proof.
+    intros cs rs tape pl ws Hcs Hp Hlim. unfold encrypt_session.
+    rewrite (aio_plan_open bytes af_W rs tape [] pl _ _ Hp
+               (aio_dwrites_W (header_writes (ep_header pl)) []) eq_refl).
+    destruct (write_seg_indep cs Hcs
+                (aead_seal P (stream_key P (ep_file_key pl) (ep_nonce pl))) ws
+                (([] ++ concat (header_writes (ep_header pl))) ++ ep_nonce pl) Hlim) as (w & Hr).
+    rewrite Hr. cbn [bind]. unfold file_bytes.
+    rewrite header_writes_concat. cbn [app]. rewrite <- app_assoc. reflexivity.
+  Qed.
+
+  (** ** C12a: the same through the armor writer *)
+  Lemma aio_armored_bytes_session :
+    forall (cs : nat) (rs : list recipient) (tape : bytes) (pl : enc_plan) (ws : list bytes),
+      (0 < cs)%nat ->
+      plan_encrypt P rs tape = Ok pl ->
+      (N.of_nat (length (concat ws)) < ctr_limit)%N ->
+      exists ad,
+        encrypt_session P (awstate * bytes) (armored_dwrite bytes af_W) cs rs tape aio_ad0 ws
+        = Ok (ad, true, repeat true (S (length ws))) /\
+        aio_ainv (file_bytes P cs pl (concat ws)) ad.
+  Proof.
+    intros cs rs tape pl ws Hcs Hp Hlim.
+    apply (aio_sim_session bytes (awstate * bytes) af_W (armored_dwrite bytes af_W)
+             aio_ainv aio_ainv_step cs rs tape [] aio_ad0 ws).
+    - left. repeat split.
+    - exact (session_bytes cs rs tape pl ws Hcs Hp Hlim).
+    - apply aio_Forall_repeat_true.
+  Qed.
+
+  Lemma armored_session_bytes :
+    forall (cs : nat) (rs : list recipient) (tape : bytes) (pl : enc_plan) (ws : list bytes),
+      (0 < cs)%nat ->
+      plan_encrypt P rs tape = Ok pl ->
+      (N.of_nat (length (concat ws)) < ctr_limit)%N ->
+      armored_session P bytes (fun d p => (d ++ p, true)) cs rs tape [] ws
+      = Ok (armor_bytes (file_bytes P cs pl (concat ws)), true, repeat true (S (length ws)), true).
+  Proof.
+    intros cs rs tape pl ws Hcs Hp Hlim. unfold armored_session.
+    destruct (aio_armored_bytes_session cs rs tape pl ws Hcs Hp Hlim) as ([a d] & Hs & Hinv).
+    rewrite Hs. cbn [bind fst snd].
+    destruct (aio_ainv_close _ _ _ Hinv) as (a' & Hc). rewrite Hc. reflexivity.
+  Qed.
+
+  (** ** C13a: destinations with fault plans *)
+  Lemma session_write_faults :
+    forall (cs : nat) (rs : list recipient) (tape : bytes) (ws : list bytes) (plan : list bool)
+           (k : sink) (eok : bool) (oks : list bool),
+      (0 < cs)%nat ->
+      (N.of_nat (length (concat ws)) < ctr_limit)%N ->
+      encrypt_session P sink sink_write cs rs tape (empty_sink plan) ws = Ok (k, eok, oks) ->
+      eok = true -> Forall (fun b => b = true) oks ->
+      k_fails k = 0%nat /\
+      exists pl, plan_encrypt P rs tape = Ok pl /\ k_acc k = file_bytes P cs pl (concat ws).
+  Proof.
+    intros cs rs tape ws plan k eok oks Hcs Hlim H -> Hall.
+    destruct (aio_session_ok_plan _ _ _ _ _ _ _ _ _ H) as (pl & Hp).
+    destruct (aio_sim_session sink bytes sink_write af_W aio_kinv aio_kinv_step
+                cs rs tape (empty_sink plan) [] ws k oks) as (b & Hs & Hb & Hf);
+      [split; reflexivity|exact H|exact Hall|].
+    rewrite (session_bytes cs rs tape pl ws Hcs Hp Hlim) in Hs. injection Hs as <- _.
+    split; [exact Hf|]. exists pl. split; [exact Hp|symmetry; exact Hb].
+  Qed.
+
+  Lemma armored_session_write_faults :
+    forall (cs : nat) (rs : list recipient) (tape : bytes) (ws : list bytes) (plan : list bool)
+           (k : sink) (eok cok : bool) (oks : list bool),
+      (0 < cs)%nat ->
+      (N.of_nat (length (concat ws)) < ctr_limit)%N ->
+      armored_session P sink sink_write cs rs tape (empty_sink plan) ws = Ok (k, eok, oks, cok) ->
+      eok = true -> Forall (fun b => b = true) oks -> cok = true ->
+      k_fails k = 0%nat /\
+      exists pl, plan_encrypt P rs tape = Ok pl /\
+                 k_acc k = armor_bytes (file_bytes P cs pl (concat ws)).
+  Proof.
+    intros cs rs tape ws plan k eok cok oks Hcs Hlim H Heok Hall Hcok. subst eok cok.
+    unfold armored_session in H.
+    destruct (encrypt_session P (awstate * sink) (armored_dwrite sink sink_write) cs rs tape
+                (aw_init, empty_sink plan) ws) as [[[ad eok1] oks']|c|n] eqn:Es;
+      cbn [bind] in H; try discriminate H.
+    destruct (aw_close sink sink_write (fst ad) (snd ad)) as [[a' k'] cok1] eqn:Ec.
+    injection H as Hk He Ho Hc. subst k' eok1 oks' cok1.
+    destruct (aio_session_ok_plan _ _ _ _ _ _ _ _ _ Es) as (pl & Hp).
+    destruct (aio_sim_session (awstate * sink) (awstate * bytes)
+                (armored_dwrite sink sink_write) (armored_dwrite bytes af_W)
+                aio_sinv aio_sinv_step
+                cs rs tape (aw_init, empty_sink plan) aio_ad0 ws ad oks)
+      as (d2 & Hs & Ha & Hb & Hf); [repeat split|exact Es|exact Hall|].
+    destruct (aio_armored_bytes_session cs rs tape pl ws Hcs Hp Hlim) as (d2' & Hs' & Hinv).
+    rewrite Hs' in Hs. injection Hs as -> _.
+    destruct d2 as [a2 b2]. destruct ad as [a k0]. cbn [fst snd] in *. subst a2 b2.
+    destruct (aio_ainv_close _ _ _ Hinv) as (a'' & Hc).
+    destruct (af_sim_close _ _ _ _ Ec) as [Hc2 Hf2].
+    rewrite Hc in Hc2. injection Hc2 as _ Hacc.
+    split; [congruence|]. exists pl. split; [exact Hp|symmetry; exact Hacc].
+  Qed.
+
+  Lemma aio_sink_dwrites_fails : forall ps k k',
+    dwrites sink sink_write k ps = (k', true) -> k_fails k' = k_fails k.
+  Proof.
+    induction ps as [|p ps IH]; intros k k' H; cbn [dwrites] in H.
+    - injection H as <-. reflexivity.
+    - destruct (sink_write k p) as [k1 ok] eqn:E. destruct ok; [|discriminate H].
+      apply af_sink_write_true in E. destruct E as [_ E]. rewrite (IH _ _ H). exact E.
+  Qed.
+
+  Lemma session_total :
+    forall (cs : nat) (rs : list recipient) (tape : bytes) (ws : list bytes) (plan : list bool),
+      (0 < cs)%nat ->
+      (N.of_nat (length (concat ws)) < ctr_limit)%N ->
+      exists k eok oks,
+        encrypt_session P sink sink_write cs rs tape (empty_sink plan) ws = Ok (k, eok, oks).
+  Proof.
+    intros cs rs tape ws plan Hcs Hlim. unfold encrypt_session.
+    destruct (encrypt_open P sink sink_write rs tape (empty_sink plan)) as [[[pl k1]|c|n] x] eqn:E.
+    - destruct (aio_open_plan _ _ _ _ _ _ _ _ E) as (_ & _ & kh & Hh & Hn).
+      apply aio_sink_dwrites_fails in Hh. apply af_sink_write_true in Hn. destruct Hn as [_ Hn].
+      assert (Hg : sgood k1 = true).
+      { unfold sgood. rewrite Hn, Hh. reflexivity. }
+      destruct (w_run_spec cs Hcs (aead_seal P (stream_key P (ep_file_key pl) (ep_nonce pl)))
+                  sink sink_write k_acc sgood sink_write_ok sink_write_fail (k_acc k1)
+                  ws w_init k1 [] [])
+        as (w' & k' & i & j & Hr & _).
+      + apply (w_init_open cs _ sink sink_write k_acc sgood (k_acc k1) k1 Hg eq_refl).
+      + exact Hlim.
+      + rewrite Hr. cbn [bind]. eexists _, _, _. reflexivity.
+    - eexists _, _, _. reflexivity.
+    - exfalso. exact (aio_open_no_panic _ _ _ _ _ _ _ E).
+  Qed.
+
+  (** ** Decrypt over sources *)
+
+  Lemma aio_open_len_ok : AeadLen P -> forall key, open_len_ok (aead_open P key).
+  Proof. intros H key n c p Ho. rewrite (H _ _ _ _ Ho). lia. Qed.
+
+  (** what a successful Decrypt read *)
+  Lemma aio_decrypt_open_ok : forall ids file o n e w,
+    decrypt_open P ids file = (Ok o, n, e, w) ->
+    exists h payload, parse file = Ok (h, payload) /\ stream_nonce_size <= length payload /\
+      do_payload o = skipn stream_nonce_size payload.
+  Proof.
+    intros ids file o n e w H. unfold decrypt_open in H.
+    destruct ids as [|i ids']; [discriminate H|].
+    destruct (parse file) as [[h payload]|c|k]; try discriminate H.
+    destruct (identity_loop P (i :: ids') (h_stanzas h) 0 0 []) as [[[r n'] e'] w'].
+    destruct r as [fk|c|k]; try discriminate H.
+    destruct (negb (bytes_eqb (header_mac P fk (h_stanzas h)) (h_mac h))); [discriminate H|].
+    destruct (Nat.ltb (length payload) stream_nonce_size) eqn:El; [discriminate H|].
+    apply Nat.ltb_ge in El. injection H as <- _ _ _. cbn [do_payload].
+    exists h, payload. split; [reflexivity|]. split; [exact El|reflexivity].
+  Qed.
+
+  (** Decrypt looks at the header and the nonce only *)
+  Lemma aio_decrypt_open_ext : forall ids h payload rest o n e w,
+    wf_header h = true ->
+    decrypt_open P ids (marshal h ++ payload) = (Ok o, n, e, w) ->
+    decrypt_open P ids (marshal h ++ payload ++ rest) =
+      (Ok (mkDecOpen (do_key o) (do_payload o ++ rest) (do_file_key o) (do_consulted o)), n, e, w).
+  Proof.
+    intros ids h payload rest o n e w Hwf H. unfold decrypt_open in *.
+    destruct ids as [|i ids']; [discriminate H|].
+    rewrite marshal_parse in H by exact Hwf. rewrite marshal_parse by exact Hwf.
+    destruct (identity_loop P (i :: ids') (h_stanzas h) 0 0 []) as [[[r n'] e'] w'].
+    destruct r as [fk|c|k]; try discriminate H.
+    destruct (negb (bytes_eqb (header_mac P fk (h_stanzas h)) (h_mac h))); [discriminate H|].
+    destruct (Nat.ltb (length payload) stream_nonce_size) eqn:El; [discriminate H|].
+    apply Nat.ltb_ge in El.
+    replace (Nat.ltb (length (payload ++ rest)) stream_nonce_size) with false
+      by (symmetry; apply Nat.ltb_ge; rewrite app_length; lia).
+    injection H as <- <- <- <-. cbn [do_key do_payload do_file_key do_consulted].
+    rewrite firstn_app_le, skipn_app_le by exact El. reflexivity.
+  Qed.
+
+  Lemma aio_skipn_pre : forall (pre x : bytes), skipn (length pre) (pre ++ x) = x.
+  Proof.
+    intros pre x. rewrite skipn_app, skipn_all, Nat.sub_diag. reflexivity.
+  Qed.
+
+  Lemma decrypt_sched_indep :
+    forall (cs : nat) (ids : list identity) (file : bytes) (pieces caps : list nat)
+           (eofdata : bool) (dflt : nat),
+      (0 < cs)%nat ->
+      (N.of_nat (length file) < ctr_limit)%N ->
+      AeadLen P ->
+      decrypt_src P cs ids (mkSrc file pieces eofdata None EIo) caps dflt
+      = decrypt_bytes P cs ids file.
+  Proof.
+    intros cs ids file pieces caps eofdata dflt Hcs Hlim Hlen.
+    unfold decrypt_src, decrypt_bytes, src_content.
+    cbn [s_fault s_data s_pieces s_eofdata s_fclass fault_sub].
+    destruct (decrypt_open P ids file) as [[[r n] e] w] eqn:E.
+    destruct r as [o|c|k]; [|reflexivity|reflexivity].
+    destruct (aio_decrypt_open_ok _ _ _ _ _ _ E) as (h & payload & Hp & Hl & Hd).
+    apply parse_marshal in Hp.
+    set (pre := marshal h ++ firstn stream_nonce_size payload).
+    assert (Hf : file = pre ++ do_payload o).
+    { subst pre. rewrite Hd, <- app_assoc, firstn_skipn. symmetry. exact Hp. }
+    assert (Hle : length (do_payload o) <= length file) by (rewrite Hf, app_length; lia).
+    assert (Hsk : skipn (length file - length (do_payload o)) file = do_payload o).
+    { rewrite Hf at 1 2. rewrite app_length.
+      replace (length pre + length (do_payload o) - length (do_payload o)) with (length pre) by lia.
+      apply aio_skipn_pre. }
+    rewrite Hsk.
+    rewrite (read_sched_indep cs Hcs (aead_open P (do_key o)) (do_payload o) pieces caps eofdata dflt);
+      [|lia|exact (aio_open_len_ok Hlen _)].
+    cbn [bind].
+    destruct (decrypt_spec cs (aead_open P (do_key o)) (do_payload o)) as [[p oc] l]. reflexivity.
+  Qed.
+
+  (** Panics of Decrypt come from custom identities only *)
+  Ltac aio_nopanic H :=
+    repeat (try discriminate H;
+            match type of H with context [match ?x with _ => _ end] => destruct x end);
+    try discriminate H.
+
+  Lemma aio_multi_unwrap_panic : forall (f : stanza -> res bytes * list N) ss m w,
+    multi_unwrap f ss = (Panic m, w) -> exists s w', f s = (Panic m, w').
+  Proof.
+    induction ss as [|s ss IH]; intros m w H; cbn [multi_unwrap] in H; [discriminate H|].
+    destruct (f s) as [r w0] eqn:Ef. destruct r as [fk|c|k].
+    - discriminate H.
+    - destruct c; try discriminate H.
+      destruct (multi_unwrap f ss) as [r' w''] eqn:Em. injection H as -> _.
+      exact (IH _ _ eq_refl).
+    - injection H as -> _. exists s, w0. exact Ef.
+  Qed.
+
+  Lemma aio_unwrap_panic : forall i ss m w,
+    unwrap P i ss = (Panic m, w) -> i = IStub (Panic m).
+  Proof.
+    intros i ss m w H. destruct i as [secret pub|pass mx|blob secret pub|blob|answer];
+      cbn [unwrap] in H.
+    - exfalso. apply aio_multi_unwrap_panic in H. destruct H as (s & w' & H).
+      unfold nolog in H. injection H as H _.
+      unfold unwrap_x25519, aead_decrypt_sized in H. aio_nopanic H.
+    - exfalso.
+      destruct (existsb (fun s => bytes_eqb (st_type s) ty_scrypt) ss && negb (Nat.eqb (length ss) 1));
+        [discriminate H|].
+      apply aio_multi_unwrap_panic in H. destruct H as (s & w' & H).
+      unfold unwrap_scrypt, aead_decrypt_sized in H. aio_nopanic H.
+    - exfalso. apply aio_multi_unwrap_panic in H. destruct H as (s & w' & H).
+      unfold nolog in H. injection H as H _.
+      unfold unwrap_ssh_ed in H. aio_nopanic H.
+    - exfalso. apply aio_multi_unwrap_panic in H. destruct H as (s & w' & H).
+      unfold nolog in H. injection H as H _.
+      unfold unwrap_ssh_rsa in H. aio_nopanic H.
+    - injection H as -> _. reflexivity.
+  Qed.
+
+  Lemma aio_identity_loop_panic : forall ids ss c e w m c' e' w',
+    identity_loop P ids ss c e w = (Panic m, c', e', w') -> In (IStub (Panic m)) ids.
+  Proof.
+    induction ids as [|i ids IH]; intros ss c e w m c' e' w' H; cbn [identity_loop] in H;
+      [discriminate H|].
+    destruct (unwrap P i ss) as [r w0] eqn:Eu. destruct r as [fk|cl|k].
+    - destruct fk; discriminate H.
+    - destruct cl; try discriminate H. right. exact (IH _ _ _ _ _ _ _ _ H).
+    - injection H as -> _ _ _. left. exact (aio_unwrap_panic _ _ _ _ Eu).
+  Qed.
+
+  Lemma aio_decrypt_open_panic : forall ids file m n e w,
+    decrypt_open P ids file = (Panic m, n, e, w) -> In (IStub (Panic m)) ids.
+  Proof.
+    intros ids file m n e w H. unfold decrypt_open in H.
+    destruct ids as [|i ids']; [discriminate H|].
+    pose proof (parse_total file) as Ht.
+    destruct (parse file) as [[h payload]|c|k]; [|discriminate H|contradiction].
+    destruct (identity_loop P (i :: ids') (h_stanzas h) 0 0 []) as [[[r n'] e'] w'] eqn:El.
+    destruct r as [fk|c|k].
+    - destruct (negb (bytes_eqb (header_mac P fk (h_stanzas h)) (h_mac h))); [discriminate H|].
+      destruct (Nat.ltb (length payload) stream_nonce_size); discriminate H.
+    - discriminate H.
+    - injection H as -> _ _ _. exact (aio_identity_loop_panic _ _ _ _ _ _ _ _ _ El).
+  Qed.
+
+  (** C13a, source faults.  The statement originally proposed had [False] in
+      the [Panic] arm without any hypothesis on [ids]; that is FALSE of the
+      model ([decrypt_read_faults_refuted] below): a custom identity may
+      panic.  This is the strongest form: the only panics are those. *)
+  Lemma decrypt_read_faults_gen :
+    forall (cs : nat) (ids : list identity) (file : bytes) (pieces caps : list nat)
+           (eofdata : bool) (dflt k : nat),
+      (0 < cs)%nat ->
+      (k <= length file)%nat ->
+      (N.of_nat (length file) < ctr_limit)%N ->
+      AeadLen P ->
+      match decrypt_src P cs ids (mkSrc file pieces eofdata (Some k) EIo) caps dflt with
+      | Ok (released, oc) =>
+          oc <> CleanEOF /\
+          exists full oc', decrypt_bytes P cs ids file = Ok (full, oc') /\ is_prefix released full = true
+      | Err _ => True
+      | Panic n => In (IStub (Panic n)) ids
+      end.
+  Proof.
+    intros cs ids file pieces caps eofdata dflt k Hcs Hk Hlim Hlen.
+    unfold decrypt_src, src_content.
+    cbn [s_fault s_data s_pieces s_eofdata s_fclass fault_sub].
+    destruct (decrypt_open P ids (firstn k file)) as [[[r n] e] w] eqn:E.
+    destruct r as [o|c|m]; [|exact I|exact (aio_decrypt_open_panic _ _ _ _ _ _ E)].
+    destruct (aio_decrypt_open_ok _ _ _ _ _ _ E) as (h & payload & Hp & Hl & Hd).
+    pose proof (parse_wf _ _ _ Hp) as Hwf. apply parse_marshal in Hp.
+    set (rest := skipn k file).
+    assert (Hfile : file = marshal h ++ payload ++ rest).
+    { rewrite app_assoc, Hp. symmetry. apply firstn_skipn. }
+    rewrite <- Hp in E.
+    pose proof (aio_decrypt_open_ext ids h payload rest o n e w Hwf E) as Hfull.
+    rewrite <- Hfile in Hfull.
+    set (pre := marshal h ++ firstn stream_nonce_size payload).
+    assert (Hpre : firstn k file = pre ++ do_payload o).
+    { subst pre. rewrite Hd, <- app_assoc, firstn_skipn. symmetry. exact Hp. }
+    assert (Hfile2 : file = pre ++ (do_payload o ++ rest)).
+    { rewrite app_assoc, <- Hpre. symmetry. apply firstn_skipn. }
+    assert (Hkl : k = length pre + length (do_payload o)).
+    { rewrite <- app_length, <- Hpre, firstn_length. lia. }
+    rewrite firstn_length.
+    replace (Nat.min k (length file) - length (do_payload o)) with (length pre) by lia.
+    replace (k - length pre) with (length (do_payload o)) by lia.
+    assert (Hsk : skipn (length pre) file = do_payload o ++ rest).
+    { rewrite Hfile2 at 1. apply aio_skipn_pre. }
+    rewrite Hsk.
+    assert (Hlb : length (do_payload o ++ rest) <= length file).
+    { pose proof (f_equal (@length byte) Hfile2) as HL. rewrite !app_length in HL.
+      rewrite app_length. lia. }
+    destruct (read_faults_surface cs Hcs (aead_open P (do_key o)) (do_payload o ++ rest)
+                pieces caps eofdata dflt (length (do_payload o)) EIo)
+      as (released & oc & l & Hr & Hoc & Hpref);
+      [rewrite app_length; lia|lia|exact (aio_open_len_ok Hlen _)|].
+    rewrite Hr. cbn [bind]. split; [exact Hoc|].
+    unfold decrypt_bytes. rewrite Hfull. cbn [do_key do_payload].
+    destruct (decrypt_spec cs (aead_open P (do_key o)) (do_payload o ++ rest)) as [[full oc'] l'].
+    cbn [fst] in Hpref. exists full, oc'. split; [reflexivity|exact Hpref].
+  Qed.
+
+  (** The guarded form used by C13a: no custom identity panics. *)
+  Lemma decrypt_read_faults :
+    forall (cs : nat) (ids : list identity) (file : bytes) (pieces caps : list nat)
+           (eofdata : bool) (dflt k : nat),
+      (0 < cs)%nat ->
+      (k <= length file)%nat ->
+      (N.of_nat (length file) < ctr_limit)%N ->
+      AeadLen P ->
+      (forall n, ~ In (IStub (Panic n)) ids) ->
+      match decrypt_src P cs ids (mkSrc file pieces eofdata (Some k) EIo) caps dflt with
+      | Ok (released, oc) =>
+          oc <> CleanEOF /\
+          exists full oc', decrypt_bytes P cs ids file = Ok (full, oc') /\ is_prefix released full = true
+      | Err _ => True
+      | Panic _ => False
+      end.
+  Proof.
+    intros cs ids file pieces caps eofdata dflt k Hcs Hk Hlim Hlen Hids.
+    pose proof (decrypt_read_faults_gen cs ids file pieces caps eofdata dflt k Hcs Hk Hlim Hlen) as H.
+    destruct (decrypt_src P cs ids (mkSrc file pieces eofdata (Some k) EIo) caps dflt)
+      as [[released oc]|c|n]; [exact H|exact I|exact (Hids n H)].
+  Qed.
+End WithPrims.
+
+(** The unguarded statement is false: one custom identity that panics, a
+    well-formed header, the source failing only at the very end. *)
+Lemma decrypt_read_faults_refuted :
+  exists (P : Prims) (cs : nat) (ids : list identity) (file : bytes) (pieces caps : list nat)
+         (eofdata : bool) (dflt k : nat),
+    (0 < cs)%nat /\ (k <= length file)%nat /\ (N.of_nat (length file) < ctr_limit)%N /\
+    AeadLen P /\
+    decrypt_src P cs ids (mkSrc file pieces eofdata (Some k) EIo) caps dflt = Panic 7.
+Proof.
+  exists (mkPrims (fun _ _ _ => []) (fun _ _ _ => None) (fun _ _ _ => []) (fun _ _ => [])
+                  (fun _ => []) (fun _ _ => None) (fun _ _ _ => []) (fun _ _ _ _ => [])
+                  (fun _ _ _ => None)).
+  exists 1, [IStub (Panic 7)], (marshal (mkHeader [] (repeat x00 32))), [], [], false, 1,
+         (length (marshal (mkHeader [] (repeat x00 32)))).
+  split; [lia|]. split; [apply le_n|]. split; [vm_compute; reflexivity|].
+  split; [intros k n c p H; discriminate H|]. vm_compute. reflexivity.
+Qed.
